@@ -407,7 +407,43 @@ func genCase(r *RNG) cfgCase {
 		bindings = append(bindings, k)
 	}
 	sort.Strings(bindings)
-	return cfgCase{Dev: a.print(true), Spoc: b.print(false), Bindings: bindings, Routes: len(b.Routes) > 0, Note: note, dev: a, spoc: b}
+	devText, spocText := a.print(true), b.print(false)
+	if r.Chance(35) {
+		devText = respell(r, devText, false)
+		note = append(note, "device-spells-ports-by-name")
+	}
+	if r.Chance(25) {
+		spocText = respell(r, spocText, true)
+		note = append(note, "target-spells-protocol-by-number-or-ports-by-name")
+	}
+	return cfgCase{Dev: devText, Spoc: spocText, Bindings: bindings, Routes: len(b.Routes) > 0, Note: note, dev: a, spoc: b}
+}
+
+// respell rewrites access-list entries of a configuration text into an equivalent spelling: well-known ports
+// by name (as a real ASA prints them) and, in a target, the protocol by number (as a raw file may).
+func respell(r *RNG, text string, target bool) string {
+	lines := strings.Split(text, "\n")
+	for i, line := range lines {
+		m := aclCmdRE.FindStringSubmatch(line)
+		if m == nil || !r.Chance(60) {
+			continue
+		}
+		w := strings.Fields(m[4])
+		for j := 2; j+1 < len(w); j++ {
+			if w[j] == "eq" {
+				if n, ok := portNumbers[w[j+1]]; ok && (w[1] == "tcp" || w[1] == "udp" && n == "domain") {
+					w[j+1] = n
+				}
+			}
+		}
+		if target && r.Chance(50) {
+			if n, ok := protoByName[w[1]]; ok {
+				w[1] = n
+			}
+		}
+		lines[i] = strings.TrimSuffix(line, m[4]) + strings.Join(w, " ")
+	}
+	return strings.Join(lines, "\n")
 }
 
 // parseDev re-reads a printed configuration (replay files carry text only).
@@ -454,7 +490,7 @@ func parseDev(text string) *asaDev {
 			if _, ok := d.ACLs[m[2]]; !ok {
 				d.AOrder = append(d.AOrder, m[2])
 			}
-			d.ACLs[m[2]] = append(d.ACLs[m[2]], m[4])
+			d.ACLs[m[2]] = append(d.ACLs[m[2]], canonBody(m[4]))
 		case agCmdRE.MatchString(line):
 			m := agCmdRE.FindStringSubmatch(line)
 			d.Bind[m[3]+" "+m[4]] = m[2]
